@@ -7,18 +7,6 @@ open Fontc
 
 /-! ### glyf point deltas -/
 
-/-- all successive differences (starting from `last`) fit an i16 -/
-def DiffsFit : Int → List Int → Prop
-  | _, [] => True
-  | last, x :: xs => inI16 (x - last) ∧ DiffsFit x xs
-
-instance : (last : Int) → (xs : List Int) → Decidable (DiffsFit last xs)
-  | _, [] => isTrue trivial
-  | last, x :: xs => by
-    unfold DiffsFit
-    have := instDecidableDiffsFit x xs
-    infer_instance
-
 theorem encode_decode_exact (p : Profile) (last : Int) (xs : List Int) (h : DiffsFit last xs) :
     ∃ ds, encodeDeltas p last xs = some ds ∧ decodeDeltas last ds = xs := by
   induction xs generalizing last with
@@ -64,10 +52,6 @@ theorem pointDelta_witness :
     decodeDeltas 0 [-20000, -25536] = [-20000, -45536] := by decide
 
 /-! ### composite totals -/
-
-def listSum : List Int → Int
-  | [] => 0
-  | x :: xs => x + listSum xs
 
 theorem listSum_nonneg (xs : List Int) (h : ∀ x ∈ xs, 0 ≤ x) : 0 ≤ listSum xs := by
   induction xs with
